@@ -4,8 +4,11 @@
    The schemas themselves are NOT copied here: harness/c16.py reflects every
    TLVStruct subclass at run time and sends its schema to the extracted model.
 
-   Repaired behaviour is modelled for Sequence[<fixed width int>] (linked
-   services): a packed array of little-endian ids (fixes/C16-packed-int-sequence.patch).
+   Sequence[<fixed width int>] (linked services) is modelled as the CURRENT code
+   behaves: decoded through tlv_array (split at every 0x00 *type* byte, then the int
+   deserialiser per piece), encoding a non-empty list raises AttributeError.  That
+   is a known finding; the packed little-endian array the specification asks for
+   is kept on the specification side ([spec_pack]/[spec_unpack]).
 
    Definitions only; proofs are in Proofs/Tlv8*.v.
 
@@ -26,7 +29,7 @@ Inductive ty :=
 | TBytes                           (* bytes *)
 | TStruct (fs : list (N * ty))     (* nested TLVStruct: (tlv_type, field type) in declaration order *)
 | TSeq (fs : list (N * ty))        (* Sequence[TLVStruct subclass]: element schema *)
-| TSeqInt (k : ikind)              (* Sequence[u16] etc: packed fixed-width ids *)
+| TSeqInt (k : ikind)              (* Sequence[u16] etc (linked services) *)
 | TUnsupp.                         (* any annotation without (de)serialiser, e.g. float *)
 
 Definition fields := list (N * ty).
@@ -43,8 +46,9 @@ Inductive val :=
 
 Definition svals := list (option val).
 
-(* TlvParseException | TlvSerializeException | struct.error/OverflowError | ValueError (incl. UnicodeDecodeError) *)
-Inductive terr := EParse | ESerialize | ERange | EValue.
+(* TlvParseException | TlvSerializeException | struct.error/OverflowError | ValueError (incl. UnicodeDecodeError)
+   | AttributeError (serialize_typing_sequence calling .encode() on an int) *)
+Inductive terr := EParse | ESerialize | ERange | EValue | EAttr.
 Definition R := res terr.
 
 (* ---- scalars ---------------------------------------------------------------- *)
@@ -235,21 +239,21 @@ Section TLV8.
     end.
   Definition emit (tag : N) (e : bytes) : bytes := frags (length e) tag e.
 
-  (* packed Sequence[int kind] (repaired) *)
-  Fixpoint pack (k : ikind) (l : list N) : R bytes :=
+  (* SPECIFICATION side: Sequence[int kind] as a packed array of fixed-width ids
+     (HAP: "linked services").  Not what the current code does - see [enc]/[dec]. *)
+  Fixpoint spec_pack (k : ikind) (l : list N) : R bytes :=
     match l with
     | [] => Ok []
-    | x :: r => if irange k x then rbind (pack k r) (fun t => Ok (ienc k x ++ t)) else Err ERange
+    | x :: r => if irange k x then rbind (spec_pack k r) (fun t => Ok (ienc k x ++ t)) else Err ERange
     end.
-  (* a trailing partial element is ignored *)
-  Fixpoint unpack_f (fuel : nat) (k : ikind) (b : bytes) : list N :=
+  Fixpoint spec_unpack_f (fuel : nat) (k : ikind) (b : bytes) : list N :=
     match fuel with
     | O => []
     | S f =>
         if length b <? iwidth k then []
-        else idec k (firstn (iwidth k) b) :: unpack_f f k (skipn (iwidth k) b)
+        else idec k (firstn (iwidth k) b) :: spec_unpack_f f k (skipn (iwidth k) b)
     end.
-  Definition unpack (k : ikind) (b : bytes) : list N := unpack_f (length b) k b.
+  Definition spec_unpack (k : ikind) (b : bytes) : list N := spec_unpack_f (length b) k b.
 
   Section EncRec.
     Variable enc_rec : ty -> val -> R bytes.
@@ -289,7 +293,10 @@ Section TLV8.
         | TBytes, VB b => Ok b
         | TStruct fs, VStruct vs => enc_fields (enc n') fs vs
         | TSeq fs, VSeq l => enc_seq (enc n') fs l true
-        | TSeqInt k, VIds l => pack k l
+        | TSeqInt k, VIds l =>
+            (* serialize_typing_sequence: "if not value: return b''"; otherwise
+               next(value_iter).encode() on an int: AttributeError *)
+            match l with [] => Ok [] | _ :: _ => Err EAttr end
         | _, _ => Crash                                          (* value of another Python type *)
         end
     end.
@@ -323,7 +330,9 @@ Section TLV8.
         | TBytes => Ok (VB b)
         | TStruct fs => rbind (dec_struct (dec n') fs b) (fun vs => Ok (VStruct vs))
         | TSeq fs => rbind (dec_seq (dec n') fs b) (fun l => Ok (VSeq l))
-        | TSeqInt k => Ok (VIds (unpack k b))
+        | TSeqInt k =>
+            (* deserialize_typing_sequence: tlv_array(value), then int.from_bytes per piece *)
+            let (its, e) := tlv_array b in finish e (VIds (map (idec k) its))
         | TUnsupp => Err EParse                                  (* find_deserializer raises *)
         end
     end.
@@ -409,8 +418,7 @@ Section TLV8.
         | TStruct fs, VStruct vs => fits_fields (fits n') fs vs && any_set vs
         | TSeq fs, VSeq l =>
             negb (nil_b l) && forallb (fun vs => fits_fields (fits n') fs vs && any_set vs) l
-        | TSeqInt k, VIds l => negb (nil_b l) && forallb (irange k) l
-        | _, _ => false
+        | _, _ => false                 (* incl. TUnsupp and TSeqInt: must be unset *)
         end
     end.
 End TLV8.
